@@ -275,7 +275,14 @@ func c02Compare(b *c02Built, file []byte) (diffs []string, got *signedexchange.E
 				pan = fmt.Sprint(r)
 			}
 		}()
-		got, rerr = signedexchange.ReadExchange(bytes.NewReader(file))
+		// handed over in a *bytes.Buffer whose storage the caller overwrites right after the call
+		store := append([]byte{}, file...)
+		buf := bytes.NewBuffer(store)
+		got, rerr = signedexchange.ReadExchange(buf)
+		buf.Reset()
+		for i := range store {
+			store[i] = 0xEE
+		}
 	}()
 	if pan != "" || rerr != nil {
 		return append(diffs, fmt.Sprintf("ReadExchange: err=%v panic=%q", rerr, pan)), nil
